@@ -57,7 +57,9 @@ def run(chk, facts_dir, tier):
     else:
         chk.fail("R20.2", ss.path, "should-sync-inputs", "should_sync lost its time-based trigger: %s" % sorted(fields), ss)
     fp = prog.body(WTP + "Worker::handle_flush_poll")
-    if calls(fp, WS + "sync_if_necessary") and any("values_mut" in (fp.callee_decl(t) or "") or "iter_mut" in (fp.callee_decl(t) or "") for bi, t in fp.calls()):
+    by_ref = any(isinstance(a, dict) and "fn" in a and (a.get("res") or a.get("fn") or "").endswith("WriterSet::sync_if_necessary") for bi, t in fp.calls() for a in t["args"])
+    in_closure = any(calls(cb_, WS + "sync_if_necessary") for cb_ in prog.children(fp.path))
+    if (calls(fp, WS + "sync_if_necessary") or by_ref or in_closure) and any("values_mut" in (fp.callee_decl(t) or "") or "iter_mut" in (fp.callee_decl(t) or "") for bi, t in fp.calls()):
         chk.ok("R20.2", "handle_flush_poll runs sync_if_necessary on every writer set", fp.where())
     else:
         chk.fail("R20.2", fp.path, "flush-poll-shape", "handle_flush_poll does not visit every writer set", fp)
@@ -100,6 +102,24 @@ def run(chk, facts_dir, tier):
                 if not (closed or gone):
                     bad = (s["line"], "`false` is returned outside the Closed arm / the dropped-sender arm")
                 continue
+            # `!matches!(try_send(..), Err(Closed(_)))`: the negation of a bool that is `true` exactly in the Closed arm
+            if val[0] == "un" and val[1] == "Not" and rv["k"] == "un":
+                mp = op_place(rv["a"])
+                mdefs = [d for d in pc.defs.get(follow_copies(pc, mp["l"]), []) if not d[2]["p"]] if mp is not None and not mp["p"] else []
+                consts = [(d, strip(pev._rvalue(d[3], (d[0], d[1]), 0))) for d in mdefs]
+                if mdefs and all(c[0] == "const" and c[1] in ("const true", "true", "const false", "false") for _, c in consts):
+                    okm = True
+                    for d, c in consts:
+                        if c[1] in ("const true", "true"):
+                            n_false += 1
+                            closed = variant_edge_dominates(pc, pev, d[0], lambda term: any(isinstance(x, tuple) and x and x[0] == "call" and x[1].endswith("try_send") for x in walk(term)),
+                                                            "tokio::sync::mpsc::error::TrySendError<", "1")
+                            gone = variant_edge_dominates(pc, pev, d[0], lambda term: any(isinstance(x, tuple) and x and x[0] == "call" and x[1].endswith("::upgrade") for x in walk(term)),
+                                                          "std::option::Option<", "0")
+                            if not (closed or gone):
+                                okm = False
+                    if okm:
+                        continue
             bad = (s["line"], "membership is computed from %s" % show(val)[:60])
         # a call writing the return place directly (e.g. Result::is_ok) is a computed membership too
         for bi, t in pc.calls():
